@@ -190,6 +190,20 @@ def maxAdjWrites : List Phase → Nat
   | .write b r :: rest => max (adjWrites (.write b r :: rest)) (maxAdjWrites rest)
   | .read _ :: rest => maxAdjWrites rest
 
+/-- bytes the operation holds or can still be given -/
+def budget (s : St) (o : Op) : Nat := s.left + o.rb.length + s.q.flatten.length
+
+/-- `Doomed U B prog`: with `U` unread and `B` bytes still obtainable, the remaining program cannot
+    complete: some read's predicate fires on no obtainable prefix, the reads before it completing
+    exactly (and using up their share of `B`). This is "the loss point lies before completion". -/
+def Doomed : Bytes → Nat → List Phase → Prop
+  | _, _, [] => False
+  | U, B, .write _ r :: rest => Doomed (U ++ r.flatten) B rest
+  | U, B, .read P :: rest =>
+    (∀ j, j ≤ B → P (U.take j) = false) ∨ (ExactAt P U ∧ U.length ≤ B ∧ Doomed [] (B - U.length) rest)
+
+def DoomedSt (s : St) (o : Op) : Prop := Doomed (unread s o) (budget s o) o.prog
+
 /-! ## the standard operations as programs -/
 
 /-- `Channel.SendInputB` -/
